@@ -49,6 +49,34 @@ def current(u, w=None, triples=None):
     if hw:
         out["header"] = [[ty_str(a[0]) if isinstance(a[0], tuple) else a[0], a[1] if (a[1] and not a[1].startswith("len(")) else None] for a in hw[1]]
     out["consts"] = rules_header.rules_G6(u, rep)
+    # alignment units: the padding rule is part of the format
+    from . import constp
+    cp = constp.ConstP(u)
+    out["units"] = {}
+    for im in u.impls_by_trait.get(constp.MAXSIZEOF, []):
+        if im.crate.name != "epserde":
+            continue
+        rets = cp.symbolic(im)
+        if rets is None:
+            continue
+        out["units"][ty_str(im.self_ty)] = sorted(set(guards.label(p.value) for p in rets))
+    return out
+
+
+def closed_units(u, crate):
+    """folded unit of every closed zero-copy type of the generated universe"""
+    from . import constp
+    cp = constp.ConstP(u)
+    out = {}
+    for k, (c, aj) in sorted(u.aliases.items()):
+        if not k.startswith(crate + "::"):
+            continue
+        T = c.ty(aj["ty"])
+        l = u.layouts.get(T)
+        if l is not None:
+            T = l["norm"]
+        v = cp.unit(T)
+        out[ty_str(T)] = v
     return out
 
 
